@@ -406,6 +406,59 @@ def context_split_section(ctx):
             ctx.spec_failure(case, "the generated kerning (T, o) = -30 is not applied under latn")
 
 
+def variable_user_anchor_section(ctx):
+    """a hand-written mark feature that uses the VARIABLE anchor syntax, in a variable font whose other features are generated
+    (kerning: the kern writer compiles a temporary GSUB from the feature file on the way).  The user's statement survives: at
+    every master's location the mark attaches where the user's anchor says for that location -- as it does when no writer runs"""
+    import ufo2ft
+    from harness import dsgen
+    from fontTools.ttLib import TTFont
+    from fontTools.varLib import instancer
+    from harness.otl import Layout
+    rng = ctx.subrng("variable-user-anchor")
+    tri = [[(Fr(0), Fr(0), "line"), (Fr(50), Fr(0), "line"), (Fr(50), Fr(50), "line")]]
+    FEA = ("languagesystem DFLT dflt;\nlanguagesystem latn dflt;\n"
+           "markClass acutecomb <anchor (wght=100:110 wght=900:150) 480> @TOP_MARKS;\n"
+           "feature mark {\n    pos base a <anchor (wght=100:250 wght=900:310) (wght=100:520 wght=900:560)> mark @TOP_MARKS;\n"
+           "    pos base b <anchor 260 (wght=100:700 wght=900:730)> mark @TOP_MARKS;\n} mark;\n")
+    for i in range(ctx.budget(4, 8)):
+        lib = ["ufoLib2", "defcon"][i % 2]
+        fn = ["compileVariableTTF", "compileVariableCFF2"][(i // 2) % 2]
+        def master(k):
+            return {"glyphs": [{"name": n, "unicodes": [u], "width": Fr(w + 20 * k), "contours": tri, "components": [], "anchors": []}
+                               for n, u, w in (("a", 0x61, 500), ("b", 0x62, 520), ("acutecomb", 0x301, 0))],
+                    "glyphOrder": ["a", "b", "acutecomb"], "kerning": {("a", "b"): Fr(-20 - 10 * k)}, "groups": {}, "features": FEA,
+                    "lib": {"public.openTypeCategories": {"a": "base", "b": "base", "acutecomb": "mark"}},
+                    "info": {"familyName": "Fam", "styleName": "M%d" % k, "unitsPerEm": 1000, "ascender": 800, "descender": -200}}
+        masters = [master(0), master(1)]
+        case = {"function": fn, "lib": lib, "features": FEA}
+        ctx.count(); ctx.klass("variable anchors in a hand-written mark feature: %s" % fn); ctx.nontriv(("vua", i, ctx.scale))
+        res = {}
+        try:
+            for writers in ("default", "none"):
+                ds, fonts = dsgen.make_designspace(rng, masters, lib, instances=False)
+                if writers == "none":
+                    for f in fonts:
+                        f.lib["com.github.googlei18n.ufo2ft.featureWriters"] = []
+                vf = getattr(ufo2ft, fn)(ds, useProductionNames=False)
+                b = io.BytesIO(); vf.save(b)
+                for wght in (100, 900):
+                    inst = instancer.instantiateVariableFont(TTFont(io.BytesIO(b.getvalue())), {"wght": wght})
+                    b2 = io.BytesIO(); inst.save(b2); lay = Layout(TTFont(io.BytesIO(b2.getvalue())))
+                    lk = lay.lookups_for("latn", {"mark"})
+                    res[(writers, wght)] = [tuple((lay.mark_attach(lk, base, "acutecomb") or (None, None))[:2]) for base in ("a", "b")]
+        except Exception as e:
+            ctx.spec_failure(case, "%s raised %s: %s\n%s" % (fn, type(e).__name__, e, traceback.format_exc()[-1000:]))
+            continue
+        want = {100: [(250 - 110, 520 - 480), (260 - 110, 700 - 480)], 900: [(310 - 150, 560 - 480), (260 - 150, 730 - 480)]}
+        for wght in (100, 900):
+            for writers in ("default", "none"):
+                if res[(writers, wght)] != want[wght]:
+                    ctx.spec_failure(dict(case, writers=writers, wght=wght, attachments=jsonable(res[(writers, wght)])),
+                                     "at wght=%d (%s writers) acutecomb attaches to a, b by %r; the user's variable anchors say %r" % (
+                                         wght, writers, res[(writers, wght)], want[wght]))
+
+
 def context_level(ctx):
     """BaseFeatureWriter._contextAt (the statements that re-create the script / language / lookupflag context in effect after a
     list of statements) against Fea/Context.v on random statement lists"""
@@ -750,6 +803,7 @@ def compile_level(ctx):
     tables_level(ctx)
     handwritten_features_section(ctx)
     context_split_section(ctx)
+    variable_user_anchor_section(ctx)
     context_level(ctx)
     # GSUB writers run first
     from ufo2ft.featureCompiler import FeatureCompiler
